@@ -603,6 +603,18 @@ def real_op(op, rec, pre, i, ctx):
             t0 = datetime.datetime(2021, 3, 28, 0, 30)
             tmf = lambda x: t0 + unit * tm(x)
             conv = lambda n: None if n < 0 else unit * n
+        elif scale == 'datetime-aware':
+            # offset-aware datetimes of one key written with different UTC offsets (two
+            # servers, a zone that changes its offset): the same instants, one second per
+            # model time unit; aware datetimes are compared as instants
+            import datetime
+            unit = datetime.timedelta(seconds=1)
+            tz_a = datetime.timezone.utc
+            tz_b = datetime.timezone(datetime.timedelta(hours=-4))
+            tz_c = datetime.timezone(datetime.timedelta(hours=5, minutes=30))
+            t0 = datetime.datetime(2021, 6, 1, 1, 0, tzinfo=tz_a)
+            tmf = lambda x: (t0 + unit * tm(x)).astimezone((tz_a, tz_b, tz_c)[tm(x) % 3])
+            conv = lambda n: None if n < 0 else unit * n
         elif scale in ('datetime', 'datetime-days', 'datetime-ms'):
             # the same behaviour with datetime / timedelta: one model time unit is a second,
             # a day (durations with a `days` part), or 250 ms (sub-second durations)
